@@ -614,7 +614,7 @@ Hypothesis T2 : 0 <= cp_taglen (p_rtcp p) <= SRTP_MAX_TAG_LEN_c.
 Lemma r_init_keys msz km o :
   0 <= msz -> returns (init_keys p msz km o) (fun r => key_wf msz (fst r)).
 Proof.
-  intros Hm. unfold init_keys. apply r_bind; intros o1.
+  intros Hm. unfold init_keys. change derive_keys_any with derive_keys. apply r_bind; intros o1.
   destruct (derive_keys p (fst km) _) as [st [d|]] eqn:ED; [|apply r_exit].
   apply derive_keys_shape in ED. destruct ED as (E1 & [k1 E2] & [k2 E3]).
   apply r_bind; intros r. apply r_if; [apply r_bind; intros; apply r_exit|].
